@@ -249,6 +249,29 @@ SEMANTIC = [
     'type X = int\n', 'def f[T](a: T) -> T: return a\n', 'class C[T]: pass\n', 'x = 1 if a else 2 if b else 3\n', 'assert (a, b)\n', 'raise A from B\n', 'with a, b as c: pass\n',
     '@a.b(c)\n@d\nclass C: pass\n', '@(a := b)\ndef f(): pass\n', 'x = not a in b\n',
 ]
+
+# programs near numeric limits (CPython: at most 255 targets before a starred target; long argument lists; deep nesting)
+def _limit_programs():
+    out = []
+    for n in (2, 100, 127, 128, 129, 200, 255):
+        names = ', '.join('a%d' % i for i in range(n))
+        out += ['%s, *r = x\n' % names, '(%s, *r) = x\n' % names, '[%s, *r, z] = x\n' % names]
+    out.append('f(%s)\n' % ', '.join('a%d' % i for i in range(300)))
+    out.append('f(%s)\n' % ', '.join('k%d=%d' % (i, i) for i in range(260)))
+    out.append('def f(%s): pass\n' % ', '.join('p%d' % i for i in range(260)))
+    out.append('x = ' + '(' * 60 + '1' + ')' * 60 + '\n')
+    out.append('x = ' + '[' * 40 + ']' * 40 + '\n')
+    out.append(''.join('    ' * i + 'if a%d:\n' % i for i in range(15)) + '    ' * 15 + 'pass\n')
+    out.append(''.join('    ' * i + 'def f%d():\n' % i for i in range(12)) + '    ' * 12 + 'return 1\n')
+    out.append('x = ' + ' + '.join('a%d' % i for i in range(400)) + '\n')
+    out.append('x = [' + ', '.join(str(i) for i in range(500)) + ']\n')
+    out.append('x = ' + 'not ' * 60 + 'y\n')
+    out.append('x = ' + '-' * 80 + '1\n')
+    out.append('lambda ' + ', '.join('q%d' % i for i in range(256)) + ': 0\n')
+    return out
+
+
+SEMANTIC += _limit_programs()
 WRAPS = ['', '', '', 'def w():\n', 'async def w():\n', 'class W:\n', 'if c:\n', 'for q in p:\n', 'while c:\n', 'try:\n', 'with m:\n', 'def w():\n    def v():\n', 'class W:\n    def m(self):\n']
 
 
